@@ -238,9 +238,10 @@ Driver ==
                 THEN [dp EXCEPT !.hasL = f.hasL, !.hasS = FALSE, !.hasR = f.hasR]
                 ELSE [dp EXCEPT !.status = "ValueError"]
          ELSE IF m = "cholesky"
-           \* _cholesky_regularized_numba: lsqrt -> L, rsqrt -> L^H, *anything else* -> (L, L^H)
-           THEN IF a = "none" THEN [dp EXCEPT !.status = "ValueError"]
-                ELSE [dp EXCEPT !.hasL = a # "rsqrt", !.hasS = FALSE, !.hasR = a # "lsqrt"]
+           \* cholesky_regularized(_numpy): both -> (L, L^H), lsqrt -> L, rsqrt -> L^H, anything else raises
+           THEN IF a \in CholeskyForms
+                THEN [dp EXCEPT !.hasL = a # "rsqrt", !.hasS = FALSE, !.hasR = a # "lsqrt"]
+                ELSE [dp EXCEPT !.status = "ValueError"]
          ELSE IF m = "lu"
            THEN IF a = "both" THEN [dp EXCEPT !.hasL = TRUE, !.hasR = TRUE]
                 ELSE [dp EXCEPT !.status = "NotImplementedError"]
@@ -290,9 +291,7 @@ PathsAgree == DoneT => g.n = nb.n /\ g.err2 = nb.err2 /\ g.f = nb.f
 
 \* table: documented combinations are not rejected; what is returned has the documented form and
 \* the isometry claim is sound
-TableDeviation(m, a) ==
-  \/ m \in PolarMethods /\ Canon(a) # "auto"
-  \/ m = "cholesky" /\ Resolved(m, a) \notin CholeskyForms
+TableDeviation(m, a) == m \in PolarMethods /\ Canon(a) # "auto"
 
 AcceptedReturns == DoneD /\ Accepts(cs.method, cs.absorb) => dp.status = "ok"
 
